@@ -111,8 +111,36 @@ GROUPS['mulI'] = [
     A([m_, n_], z3.Implies(z3.And(m_ >= 1, n_ >= 1), z3.And(mulI(m_, n_) >= m_, mulI(m_, n_) >= n_)), [mulI(m_, n_)]),
     A([n_], z3.And(mulI(1, n_) == n_, mulI(n_, 1) == n_), [mulI(1, n_), mulI(n_, 1)]),
     A([n_], z3.And(mulI(0, n_) == 0, mulI(n_, 0) == 0), [mulI(0, n_), mulI(n_, 0)]),
-    A([m_, n_, k_], mulI(mulI(m_, n_), k_) == mulI(m_, mulI(n_, k_)), [mulI(mulI(m_, n_), k_)]),
 ]
+
+
+def mul_canon(*factors):
+    """Canonical product of integer dimension terms: nested mulI applications are flattened, literal factors are
+    multiplied out, the symbolic factors are sorted - so associativity / commutativity of products of dimensions hold
+    syntactically and need no axioms (which would be AC matching loops)."""
+    lits, syms = 1, []
+    stack = list(factors)
+    while stack:
+        f = stack.pop()
+        if isinstance(f, int):
+            lits *= f
+            continue
+        f = z3.simplify(f) if not z3.is_int_value(f) else f
+        if z3.is_int_value(f):
+            lits *= f.as_long()
+        elif z3.is_app(f) and f.decl().eq(mulI):
+            stack.extend(f.children())
+        else:
+            syms.append(f)
+    if lits == 0:
+        return z3.IntVal(0)
+    syms.sort(key=lambda t: t.sexpr())
+    if not syms:
+        return z3.IntVal(lits)
+    out = syms[0]
+    for t in syms[1:]:
+        out = mulI(out, t)
+    return out if lits == 1 else lits * out
 
 # ---- block algebra (proved in Lean: lemmas/TTAlg.lean)
 GROUPS['block'] = [
